@@ -466,9 +466,10 @@ namespace bluetoe {
 
                 long_term_key_ = long_term_key;
 
-                pairing_status_ = state_data_.lesc_state.algorithm == details::lesc_pairing_algorithm::just_works
-                    ? device_pairing_status::unauthenticated_key
-                    : device_pairing_status::authenticated_key;
+                // numeric comparison is the only implemented method that authenticates the remote device
+                pairing_status_ = state_data_.lesc_state.algorithm == details::lesc_pairing_algorithm::numeric_comparison
+                    ? device_pairing_status::authenticated_key
+                    : device_pairing_status::unauthenticated_key;
             }
 
             const details::uint128_t& c1_p1() const
